@@ -112,6 +112,11 @@ nostd::shared_ptr<opentelemetry::trace::Span> Tracer::StartSpan(
   {
     flags |= opentelemetry::trace::TraceFlags::kIsSampled;
   }
+  else
+  {
+    // the flags start as a copy of the parent's: a span that is not sampled must not inherit the bit
+    flags &= static_cast<uint8_t>(~opentelemetry::trace::TraceFlags::kIsSampled);
+  }
 
 #if 1
   /* https://github.com/open-telemetry/opentelemetry-specification as of v1.29.0 */
